@@ -2,7 +2,7 @@
    for all histories; and what the decision procedure accepts satisfies the Props. *)
 From Coq Require Import List ZArith Bool Lia.
 From Verif Require Import Lib.ListX C02.Model C03.Model C03.Spec C03.Proofs C03.Proofs_Runtime
-     C03.Proofs_Inv C03.Proofs_Step.
+     C03.Proofs_Inv C03.Proofs_Flight C03.Proofs_Step.
 Import ListNotations.
 Open Scope Z_scope.
 
@@ -86,8 +86,8 @@ Proof.
   intro H. unfold self_ok. apply all_dims_ext. intro d.
   destruct (mget (q_decl q) d) eqn:E; cbn; [rewrite (H d E)|]; reflexivity.
 Qed.
-Lemma anc_ok_ext a l1 l2 m :
-  (forall d, mget (q_decl a) d = true -> vget l1 d = vget l2 d) -> anc_ok a l1 m = anc_ok a l2 m.
+Lemma anc_ok_ext a l1 l2 rk m :
+  (forall d, mget (q_decl a) d = true -> vget l1 d = vget l2 d) -> anc_ok a l1 rk m = anc_ok a l2 rk m.
 Proof.
   intro H. unfold anc_ok. apply all_dims_ext. intro d.
   destruct (mget (q_decl a) d) eqn:E; cbn; [rewrite (H d E)|]; reflexivity.
@@ -114,19 +114,25 @@ Qed.
 Lemma limits_ids cfg st pth : map fst (limits cfg st pth) = map q_id pth.
 Proof. unfold limits. induction pth as [|x t IH]; [reflexivity|]. cbn [map fst]. rewrite IH. reflexivity. Qed.
 
-Lemma step_attempt cfg st id p :
-  find_pod id (pods st) = Some p ->
-  o_status (snd (step cfg st (OAttempt id))) = admission cfg st p (path st (p_quota p))
-  /\ o_limits (snd (step cfg st (OAttempt id))) = limits cfg st (path st (p_quota p)).
-Proof. intro H. unfold step. rewrite H. split; reflexivity. Qed.
+Definition is_check (o : op) (id : Z) : Prop := o = OAttempt id \/ o = OCheck id.
 
-Lemma check_attempt_model cfg wf st id :
-  INV cfg wf st -> check_attempt cfg st id (snd (step cfg st (OAttempt id))) = 0.
+Lemma step_attempt cfg st o id p :
+  is_check o id -> find_pod id (pods st) = Some p ->
+  o_status (snd (step cfg st o)) = admission cfg st p (path st (p_quota p))
+  /\ o_limits (snd (step cfg st o)) = limits cfg st (path st (p_quota p)).
+Proof. intros [-> | ->] H; unfold step; rewrite H; split; reflexivity. Qed.
+
+Lemma step_attempt_none cfg st o id :
+  is_check o id -> find_pod id (pods st) = None -> o_status (snd (step cfg st o)) = -1.
+Proof. intros [-> | ->] H; unfold step; rewrite H; reflexivity. Qed.
+
+Lemma check_attempt_model cfg wf st o id :
+  is_check o id -> INV cfg wf st -> check_attempt cfg st id (snd (step cfg st o)) = 0.
 Proof.
-  intro I. unfold check_attempt.
+  intros Hc I. unfold check_attempt.
   destruct (find_pod id (pods st)) as [p|] eqn:Ef.
-  2:{ unfold step. rewrite Ef. reflexivity. }
-  destruct (step_attempt cfg st id p Ef) as [Es El]. rewrite Es, El. clear Es El.
+  2:{ rewrite (step_attempt_none cfg st o id Hc Ef). reflexivity. }
+  destruct (step_attempt cfg st o id p Hc Ef) as [Es El]. rewrite Es, El. clear Es El.
   destruct (path st (p_quota p)) as [|q anc] eqn:Ep; [reflexivity|].
   assert (Hsub : forall x, In x (q :: anc) -> In x (quotas st)).
   { intros x Hx. rewrite <- Ep in Hx. exact (path_from_in _ _ _ _ Hx). }
@@ -177,30 +183,37 @@ Proof.
   rewrite <- step_dump. destruct (snd (step cfg st o)); reflexivity.
 Qed.
 
-Lemma check_op_model cfg wf st o :
-  INV cfg wf st ->
-  check_op cfg (wf && op_okb st o) st o (snd (step cfg st o)) = 0.
+Lemma check_op_model cfg wf st sn o :
+  INV cfg wf st -> FL wf st sn ->
+  check_op cfg (wf && op_okb st sn o) st o (snd (step cfg st o)) = 0.
 Proof.
-  intro I. unfold check_op.
-  assert (Hc : match o with OAttempt id => check_attempt cfg st id (snd (step cfg st o)) | _ => 0 end = 0).
-  { destruct o; try reflexivity. apply (check_attempt_model cfg wf). exact I. }
+  intros I F. unfold check_op.
+  assert (Hc : match o with
+               | OAttempt id | OCheck id => check_attempt cfg st id (snd (step cfg st o))
+               | _ => 0
+               end = 0).
+  { destruct o; try reflexivity; apply (check_attempt_model cfg wf); auto; [left|right]; reflexivity. }
   rewrite Hc. cbn [Z.eqb negb].
   destruct (step_obs_shape cfg st o) as (s & l & ->).
-  apply (check_dump_model cfg _ _ (INV_step cfg wf st o I)).
+  apply (check_dump_model cfg _ _ (INV_step cfg wf st sn o I F)).
 Qed.
 
 (* ---------- all histories ---------- *)
-Theorem check_run cfg : forall ops wf st,
-  INV cfg wf st -> check cfg wf st (dump st) ops (run cfg st ops) = 0.
+Theorem check_run cfg : forall ops wf st sn,
+  INV cfg wf st -> FL wf st sn -> check cfg wf st sn (dump st) ops (run cfg st ops) = 0.
 Proof.
-  induction ops as [|o t IH]; intros wf st I; [reflexivity|].
+  induction ops as [|o t IH]; intros wf st sn I F; [reflexivity|].
   cbn [run]. destruct (step cfg st o) as [st' ob] eqn:Es. cbn [check].
   rewrite (sync_state_dump cfg wf st I).
-  pose proof (check_op_model cfg wf st o I) as Hc. rewrite Es in Hc. cbn [snd] in Hc.
+  pose proof (check_op_model cfg wf st sn o I F) as Hc. rewrite Es in Hc. cbn [snd] in Hc.
   rewrite Hc. cbn [Z.eqb negb]. rewrite Es. cbn [fst].
   pose proof (step_dump cfg st o) as Hd. rewrite Es in Hd. cbn [fst snd] in Hd. rewrite Hd.
-  apply IH. pose proof (INV_step cfg wf st o I) as I'. rewrite Es in I'. exact I'.
+  apply IH.
+  - pose proof (INV_step cfg wf st sn o I F) as I'. rewrite Es in I'. exact I'.
+  - pose proof (FL_step cfg wf st sn o I F) as F'. rewrite Es in F'. exact F'.
 Qed.
 
 Theorem prop_code_run cfg ops : prop_code cfg ops (run cfg init_state ops) = 0.
-Proof. unfold prop_code. apply (check_run cfg ops true init_state). apply INV_init. Qed.
+Proof.
+  unfold prop_code. apply (check_run cfg ops true init_state None); [apply INV_init|apply FL_init].
+Qed.
